@@ -1,5 +1,5 @@
 (* C06 statements of worker prove3-cong, in Properties form (test-compiled against /verif/coq as a stand-alone file).
-   To merge into coq/Properties/C06.v: add the Require line's new modules (PnCong1..5, DfpnRep1, Refine Reach1 Alloc Preserve1) and paste the blocks; the two `_partial` statements of block 4 can stay as the conditional forms.
+   To merge into coq/Properties/C06.v: add the Require line's new modules (PnCong1..5, DfpnRep1, DfpnRep5, Refine Reach1 Alloc Preserve1) and paste the blocks; the two `_partial` statements of block 4 can stay as the conditional forms.
 
    Block 4 without `_partial`.  The hypothesis equal_congruent (positions that Position.Equal identifies have the same
    history-free value) is false for arbitrary records (Position.Equal does not compare reserves, tie-break flag or ply
@@ -10,7 +10,7 @@
    configurations of sizes 3..6 with the default counts, any custom configuration up to 64 pieces). *)
 From Coq Require Import NArith ZArith List Bool.
 Require Import Board Move Refine GameOver Eval Search Preserve1 Reach1 Alloc AndOr AndOrS Pn PnRun PnFacts PnRunFacts Dfpn DfpnFacts DfpnFactsL
-  PnCong1 PnCong2 PnCong3 PnCong4 PnCong5 DfpnRep1.
+  PnCong1 PnCong2 PnCong3 PnCong4 PnCong5 DfpnRep1 DfpnRep5.
 Require Import Generated.Consts.
 Import ListNotations.
 Open Scope N_scope.
@@ -82,7 +82,9 @@ Print Assumptions C06_pn_disproven_attractor_reachable.
 
 
 (* ===================== Block 6: DFPN `disproven` for runs WITH threefold-repetition events =====================
-   Full statement (still open, probably FALSE for a reused solver - see notes/prove3_cong_report.txt):
+   Full statement - REFUTED on the real solver for a REUSED solver (notes/prove3_cong_report.txt: 3x3, 3 stones + capstone,
+   second Prove call answers `disproven` for a position won in 12 plies); for a fresh solver open, false for the algorithm
+   on abstract game graphs (notes/c06_ghi/d4.txt):
        dfpn p = (Disproven, m) -> ~ Wins att [] p          for every run, whatever the counters say.
    Proved, in addition to 6 (repetition counter 0): a run that took no bound from the transposition table (DFPNStats.Hits
    unchanged - compared with the solver on every run like Repetition) reports `disproven` only where the attacker has no
@@ -123,6 +125,22 @@ Theorem C06_dfpn_disproven_sound_nohit_from_partial :
       forall n, wn position (succs basis) (terminal aw) (attp aw) n g = false.
 Proof. exact dfpn_disproven_sound_nohit_from. Qed.
 Print Assumptions C06_dfpn_disproven_sound_nohit_from_partial.
+
+(* 6b'. the same for the model of a reused solver, Dfpn.prove_on (what the C06 driver runs for solver sequences) *)
+Theorem C06_dfpn_disproven_sound_nohit_on_partial :
+  forall (basis : list N) (Sp : position -> Prop) (cfg_attacker : N) (sv sv' : dsolver) (g : position) lfuel dfuel s e w r,
+    let aw := match cfg_attacker with 1 => true | 2 => false | _ => to_move_white g end in
+    (forall p m q, Sp p -> terminal aw p = None -> In m (all_moves p) -> dmv basis p m = Ok q -> Sp q) ->
+    (forall p, Sp p -> size p <= 8) ->
+    (forall p q, Sp p -> Sp q -> hash_of p = hash_of q ->
+       forall n, wn position (succs basis) (terminal aw) (attp aw) n p = wn position (succs basis) (terminal aw) (attp aw) n q) ->
+    (forall p, Sp p -> terminal aw p = None -> all_moves p <> []) ->
+    (forall p, Sp p -> terminal aw p = None -> solve p <> None -> attp aw p = false ->
+       exists q, In q (succs basis p) /\ terminal aw q = Some false) ->
+    Sp g -> prove_on basis lfuel dfuel cfg_attacker sv g = (sv', (s, e, w, r)) -> ds_hits (dst s) = 0 -> r = 2 ->
+    forall n, wn position (succs basis) (terminal aw) (attp aw) n g = false.
+Proof. exact dfpn_disproven_sound_nohit_on. Qed.
+Print Assumptions C06_dfpn_disproven_sound_nohit_on_partial.
 
 (* 6c. NoCollisionOn Sp (both forms) from "equal hash implies Position.Equal" for positions of one game *)
 Theorem C06_nocollision_from_equal :
